@@ -203,7 +203,7 @@ def k_corpus(ctx, pool):
     scripts = T.corpus_scripts(REPO_TESTS)
     if ctx.tier != "thorough":   # quick: a sample of the candidate files is parsed
         ctx.rng.shuffle(scripts)
-        scripts = sorted(scripts[:70], key=lambda x: x["path"])
+        scripts = sorted(scripts[:40], key=lambda x: x["path"])
     splits = pool.map([{"kind": "split", "path": s["path"]} for s in scripts])
     multi, err_scripts = [], []
     for s, sp in zip(scripts, splits):
@@ -217,9 +217,9 @@ def k_corpus(ctx, pool):
     thorough = ctx.tier == "thorough"
     if not thorough:
         ctx.rng.shuffle(multi)
-        multi = multi[:16]
+        multi = multi[:10]
     multi.sort(key=lambda x: x[0]["path"])
-    exh, sample = (6, 60) if thorough else (3, 8)
+    exh, sample = (6, 60) if thorough else (3, 6)
     jobs, index = [], []
     hist = {}
     for si, (s, sp) in enumerate(multi):
@@ -284,8 +284,8 @@ def run(ctx):
             ctx.log(f"stored minimal cases: {len(past)} scripts, {len(r0['disagree'])} still order dependent")
 
         # ---- X: DAG tie incl. cycles and duplicates
-        cases = T.gen_shape_cases(ctx.rng, ctx.tier, sampled_quick=300)
-        cases += T.gen_decorated_cases(ctx.rng, 2000 if thorough else 200)
+        cases = T.gen_shape_cases(ctx.rng, ctx.tier, sampled_quick=200)
+        cases += T.gen_decorated_cases(ctx.rng, 2000 if thorough else 120)
         graph = T.gen_graph_cases(ctx.rng, ctx.tier)
         cases += graph
         ctx.log(f"X tie: {len(cases)} generated scripts")
@@ -298,14 +298,17 @@ def run(ctx):
         ctx.oblige(f"T-dag: every order produced by networkx passes is_topo_order ({st['orders_validated']} orders)",
                    st["orders_validated"] == st["ok"], "")
         ctx.log(f"X tie: {st['ok']} accepted, {st['cycle']} cycle, {st['redef']} redefinition, {st['mismatch']} mismatches, "
-                f"{len(st['spec_vs_impl'])} scripts where both errors apply")
+                f"{len(st['spec_vs_impl'])} scripts where outcome_impl differs from outcome_spec")
         for c in cases[:2] + graph[-2:]:
             ctx.sample({"script": T.script_text(c["stmts"]), "category": c["cat"]})
 
-        # ---- which error wins when a script has a duplicate AND a cycle: must not depend on the order
-        both = st["spec_vs_impl"]
-        ctx.rng.shuffle(both)
-        both = both[:(400 if thorough else 30)]
+        # ---- which error wins when a script has a duplicate AND a cycle: must not depend on the order (it did before the repair of
+        #      create_dag; outcome_impl = outcome_spec is now a theorem, and the engine is permuted exhaustively on such scripts)
+        ctx.oblige("T-dag: outcome_impl = outcome_spec on every generated script (theorem C12_outcome_impl_is_spec)", not st["spec_vs_impl"],
+                   "; ".join(b["script"] for b in st["spec_vs_impl"][:3]))
+        dups = [c for c in graph if c["cat"] == "dupnames" and len({s["out"] for s in c["stmts"]}) < len(c["stmts"])]
+        ctx.rng.shuffle(dups)
+        both = [{"case": c, "script": T.script_text(c["stmts"])} for c in dups[:(400 if thorough else 20)]]
         pj, pidx = [], []
         for bi, b in enumerate(both):
             stmts = b["case"]["stmts"]
@@ -319,29 +322,33 @@ def run(ctx):
         n_dep = 0
         for bi, outs in sorted(per.items()):
             ctx.count(("dup+cycle", both[bi]["script"]), n=sum(len(v) for v in outs.values()))
+            stmts = both[bi]["case"]["stmts"]
             if len(outs) > 1:
                 n_dep += 1
-                stmts = both[bi]["case"]["stmts"]
                 (ea, pa), (eb, pb) = [(e, ps[0]) for e, ps in sorted(outs.items())][:2]
                 ctx.violation("duplicate+cycle:error-depends-on-order",
-                              f"a script with a duplicated assignment and a cycle is rejected with {ea} as {T.script_text([stmts[i] for i in pa])!r} "
+                              f"a script with a duplicated assignment is rejected with {ea} as {T.script_text([stmts[i] for i in pa])!r} "
                               f"but with {eb} as {T.script_text([stmts[i] for i in pb])!r}",
                               {"kind": "dag", "canon": stmts, "inputs": ["IN_1"], "perm_a": list(pa), "perm_b": list(pb),
                                "observed_a": ea, "observed_b": eb})
-        ctx.cov["dup_and_cycle_scripts_permuted"] = len(both)
-        ctx.cov["dup_and_cycle_scripts_with_order_dependent_error"] = n_dep
-        ctx.log(f"duplicate+cycle: {len(both)} scripts permuted exhaustively, {n_dep} with an order dependent error code")
+            elif "1-2-2" not in outs:
+                ctx.violation("duplicate:not-rejected-with-1-2-2", f"a script with a duplicated assignment gives {sorted(outs)} instead of 1-2-2: "
+                                                                    f"{both[bi]['script']!r}",
+                              {"kind": "dag", "canon": stmts, "inputs": ["IN_1"], "perm_a": list(range(len(stmts))), "perm_b": list(range(len(stmts)))})
+        ctx.cov["duplicated_name_scripts_permuted"] = len(both)
+        ctx.cov["duplicated_name_scripts_with_order_dependent_error"] = n_dep
+        ctx.log(f"duplicated names: {len(both)} scripts permuted exhaustively, {n_dep} with an order dependent error code")
 
         # ---- K generated: valid scripts
         exh = 6 if thorough else 4
         valid = [c for c in cases if c["cat"].startswith("shape") or c["cat"] == "decorated"]
         ctx.rng.shuffle(valid)
-        small = [c for c in valid if len(c["canon"]) <= 3][:(300 if thorough else 10)]
-        mid = [c for c in valid if len(c["canon"]) == 4][:(200 if thorough else 6)]
-        big = [c for c in valid if len(c["canon"]) >= 5][:(40 if thorough else 4)]
+        small = [c for c in valid if len(c["canon"]) <= 3][:(300 if thorough else 8)]
+        mid = [c for c in valid if len(c["canon"]) == 4][:(200 if thorough else 4)]
+        big = [c for c in valid if len(c["canon"]) >= 5][:(40 if thorough else 2)]
         kcases = small + mid + big + [c for c in directed_cases()]
         for c in kcases:
-            if c["cat"] in ("input-is-output", "pers-scalar-clause"):
+            if c["cat"] in ("input-is-output",):
                 c["check_ref"] = False
         rk = k_generated(ctx, pool, kcases, exh, 200 if thorough else 10, "kgen")
         ctx.cov["k_generated"] = {k: v for k, v in rk.items() if k in ("scripts", "runs", "valid", "errors")}
@@ -380,11 +387,9 @@ def run(ctx):
         dup = [c for c in graph if c["cat"] == "dupnames"]
         ctx.rng.shuffle(cyc)
         ctx.rng.shuffle(dup)
-        ecases = cyc[:(150 if thorough else 6)] + dup[:(150 if thorough else 6)]
+        ecases = cyc[:(150 if thorough else 4)] + dup[:(150 if thorough else 4)]
         for c in ecases:
             c["check_ref"] = False
-        both_scripts = {b["script"] for b in st["spec_vs_impl"]}
-        ecases = [c for c in ecases if T.script_text(c["stmts"]) not in both_scripts]
         re_ = k_generated(ctx, pool, ecases, 4, 0, "kerr")
         bad_codes = []
         for c in ecases:
